@@ -14,6 +14,10 @@ func main() {
 	switch os.Args[1] {
 	case "replay":
 		err = cmdReplay(os.Args[2:])
+	case "upgrades":
+		err = cmdUpgrades(os.Args[2:])
+	case "node":
+		err = cmdNode(os.Args[2:])
 	default:
 		err = fmt.Errorf("unknown command %q", os.Args[1])
 	}
